@@ -590,6 +590,9 @@ def run_case(case, ctx):
   ctx.nontrivial(len(ops) >= 1)
 
   # ---- listing of the edited file
+  if any("$" in (o.get("value") or "") for o in ops):
+    ctx.count("listing_skipped_value_with_stray_dollar")   # such a value cannot be listed from the hand-edited file either
+    return
   if case.get("listing") and not (colon and route != "api"):
     res = runner(["@IN", "--list-items"] + cli_args(ops), text)
     ctx.count("listings_checked")
